@@ -403,10 +403,54 @@ def splitDot : List Char → List (List Char)
 /-- `validate_identifier`: `all(p.isidentifier() for p in _text.split('.'))` -/
 def validateIdentifier (T : IdTables) (s : List Char) : Bool := (splitDot s).all (isIdentifier T)
 
-/-- the replacement as it is put into the template: identifiers as they are, anything else with
-`\n` → space and one more pair of backticks -/
+/-- Python `str.isspace` / `\s` of `re` on `str` (also the separators of `str.split()`) -/
+def isPySpace (c : Char) : Bool :=
+  let n := c.toNat
+  (9 ≤ n && n ≤ 13) || (28 ≤ n && n ≤ 32) || n == 0x85 || n == 0xA0 || n == 0x1680 ||
+  (0x2000 ≤ n && n ≤ 0x200A) || n == 0x2028 || n == 0x2029 || n == 0x202F || n == 0x205F ||
+  n == 0x3000
+
+/-- `.replace('\0', ' ')` -/
+def nulToSpace (c : Char) : Char := if c.toNat = 0 then ' ' else c
+
+inductive CState where
+  | start   -- no word seen yet
+  | word    -- inside a word
+  | gap     -- after a word, separators seen
+  deriving Repr, DecidableEq
+
+/-- `' '.join(s.split())` as a scanner: words are copied, every run of separators between two words
+becomes one blank, leading and trailing separators vanish -/
+def collapseGo : CState → List Char → List Char
+  | _, [] => []
+  | .start, c :: r => if isPySpace c then collapseGo .start r else c :: collapseGo .word r
+  | .word, c :: r => if isPySpace c then collapseGo .gap r else c :: collapseGo .word r
+  | .gap, c :: r => if isPySpace c then collapseGo .gap r else ' ' :: c :: collapseGo .word r
+
+def collapse (s : List Char) : List Char := collapseGo .start s
+
+/-- `str.rstrip(chars)` with the character set as a predicate -/
+def rstrip (p : Char → Bool) : List Char → List Char
+  | [] => []
+  | c :: r =>
+    match rstrip p r with
+    | [] => if p c then [] else [c]
+    | r' => c :: r'
+
+/-- the sanitiser of a non-identifier replacement (pydoctor commit 50c0cec):
+`' '.join(r.replace('\0', ' ').split())`, then `.replace('`', "'")`, then `.rstrip('\\')`, and `''` if
+nothing is left. `stripBlank = false` is the code as it is; `true` is `.rstrip('\\ ')` (the proposed
+follow-up, see `sanitise_guard`). -/
+def sanitise (stripBlank : Bool) (r : List Char) : List Char :=
+  let a := collapse (r.map nulToSpace)
+  let b := a.map (fun c => if c = '`' then '\'' else c)
+  let c := rstrip (fun c => c = '\\' || (stripBlank && c = ' ')) b
+  if c.isEmpty then ['\'', '\''] else c
+
+/-- the replacement as it is put into the template: identifiers as they are, anything else
+sanitised and with one more pair of backticks -/
 def wrapReplacement (T : IdTables) (r : List Char) : List Char :=
-  if validateIdentifier T r then r else '`' :: replaceChar '\n' [' '] r ++ ['`']
+  if validateIdentifier T r then r else '`' :: sanitise false r ++ ['`']
 
 inductive DeprErr where
   | valueError   -- "Invalid package name"
@@ -425,13 +469,6 @@ def deprecationText (T : IdTables) (name package version : List Char)
     .ok (['`', '`'] ++ name ++ ['`', '`', ' ', 'w', 'a', 's', ' ', 'd', 'e', 'p', 'r', 'e', 'c', 'a', 't', 'e', 'd', ' ', 'i', 'n', ' '] ++ package ++ [' '] ++ version ++ ['.'])
 
 /-! ### the docutils side of the interpolation -/
-
-/-- Python `str.isspace` / `\s` of `re` on `str` -/
-def isPySpace (c : Char) : Bool :=
-  let n := c.toNat
-  (9 ≤ n && n ≤ 13) || (28 ≤ n && n ≤ 32) || n == 0x85 || n == 0xA0 || n == 0x1680 ||
-  (0x2000 ≤ n && n ≤ 0x200A) || n == 0x2028 || n == 0x2029 || n == 0x202F || n == 0x205F ||
-  n == 0x3000
 
 /-- docutils `string2lines(convert_whitespace=True)`: `[\v\f]` → space, before the text is split -/
 def convertWs (c : Char) : Char := if c.toNat = 11 ∨ c.toNat = 12 then ' ' else c
